@@ -9,12 +9,16 @@ use quote::format_ident;
 /// Constructs name for variable with given index.
 ///
 pub fn construct_var_name(index: impl Into<usize>) -> Ident {
+    #[cfg(feature = "verif_hooks")]
+    crate::verif_hook::point("name::construct_var_name");
     format_ident!("__v{}", index.into())
 }
 ///
 /// Constructs step result name using given index.
 ///
 pub fn construct_step_results_name(index: impl Into<usize>) -> Ident {
+    #[cfg(feature = "verif_hooks")]
+    crate::verif_hook::point("name::construct_step_results_name");
     format_ident!("__sr{}", index.into())
 }
 
@@ -22,6 +26,8 @@ pub fn construct_step_results_name(index: impl Into<usize>) -> Ident {
 /// Constructs result name with given index.
 ///
 pub fn construct_result_name(index: impl Into<usize>) -> Ident {
+    #[cfg(feature = "verif_hooks")]
+    crate::verif_hook::point("name::construct_result_name");
     format_ident!("__r{}", index.into())
 }
 
@@ -29,6 +35,8 @@ pub fn construct_result_name(index: impl Into<usize>) -> Ident {
 /// Constructs thread builder name with given index.
 ///
 pub fn construct_thread_builder_name(index: impl Into<usize>) -> Ident {
+    #[cfg(feature = "verif_hooks")]
+    crate::verif_hook::point("name::construct_thread_builder_name");
     format_ident!("__j{}", index.into())
 }
 
@@ -36,6 +44,8 @@ pub fn construct_thread_builder_name(index: impl Into<usize>) -> Ident {
 /// Constructs inspect function name.
 ///
 pub fn construct_inspect_fn_name() -> Ident {
+    #[cfg(feature = "verif_hooks")]
+    crate::verif_hook::point("name::construct_inspect_fn_name");
     Ident::new("__inspect", Span::call_site())
 }
 
@@ -43,6 +53,8 @@ pub fn construct_inspect_fn_name() -> Ident {
 /// Constructs `tokio::spawn` wrapper function name.
 ///
 pub fn construct_spawn_tokio_fn_name() -> Ident {
+    #[cfg(feature = "verif_hooks")]
+    crate::verif_hook::point("name::construct_spawn_tokio_fn_name");
     Ident::new("__spawn_tokio", Span::call_site())
 }
 
@@ -50,6 +62,8 @@ pub fn construct_spawn_tokio_fn_name() -> Ident {
 /// Constructs results name.
 ///
 pub fn construct_results_name() -> Ident {
+    #[cfg(feature = "verif_hooks")]
+    crate::verif_hook::point("name::construct_results_name");
     Ident::new("__rs", Span::call_site())
 }
 
@@ -57,6 +71,8 @@ pub fn construct_results_name() -> Ident {
 /// Constructs handler name.
 ///
 pub fn construct_handler_name() -> Ident {
+    #[cfg(feature = "verif_hooks")]
+    crate::verif_hook::point("name::construct_handler_name");
     Ident::new("__h", Span::call_site())
 }
 
@@ -64,6 +80,8 @@ pub fn construct_handler_name() -> Ident {
 /// Constructs internal value name with no index.
 ///
 pub fn construct_internal_value_name() -> Ident {
+    #[cfg(feature = "verif_hooks")]
+    crate::verif_hook::point("name::construct_internal_value_name");
     Ident::new("__v", Span::call_site())
 }
 
@@ -75,6 +93,8 @@ pub fn construct_expr_wrapper_name(
     expr_index: impl Into<usize>,
     internal_index: impl Into<usize>,
 ) -> Ident {
+    #[cfg(feature = "verif_hooks")]
+    crate::verif_hook::point("name::construct_expr_wrapper_name");
     format_ident!(
         "__ew{}_{}_{}",
         index.into(),
@@ -139,5 +159,7 @@ pub fn construct_expr_wrapper_name(
 /// ```
 ///
 pub fn construct_thread_builder_fn_name() -> Ident {
+    #[cfg(feature = "verif_hooks")]
+    crate::verif_hook::point("name::construct_thread_builder_fn_name");
     Ident::new("__tb", Span::call_site())
 }
